@@ -76,9 +76,17 @@ def slice_pad_clause(model, rep, funcs):
                 ok, det = None, "cannot prove stop - start >= 1 and found no small witness"
         rep.ob("S13", where, "non-raising path yields a non-empty slice (guards are the exact complement of 'window overlaps [0,size)')" + tag,
                ok, det, node=st, fn=f, clause="2 guards", stmt=norm_src(st) + " @ " + pcdesc)
+        def _neg_witness(goal_poly):
+            try:
+                return dom.witness(goal_poly, list(pcs) + [BoolC(dom.add(z1, dom.neg(z0)), ">")])
+            except Exception:
+                return None
+
         for nm, v in (("pad_before", p0), ("pad_after", p1), ("slice.start", a)):
             okp = dom.prove_ge(v.poly(), pcs, extra=pre) if v.is_poly() else None
-            rep.ob("A", where, f"{nm} >= 0" + tag, True if okp else None, "" if okp else f"cannot prove {v!r} >= 0", node=st, fn=f, clause="1 window")
+            w = _neg_witness(v.poly()) if (okp is False and v.is_poly()) else None
+            rep.ob("A", where, f"{nm} >= 0" + tag, True if okp else (False if w is not None else None),
+                   "" if okp else (f"{nm} = {v!r} is negative for {w}" if w is not None else f"cannot prove {v!r} >= 0"), node=st, fn=f, clause="1 window")
         if len(val.items) >= 3:
             # the flag tells the callers whether the cropped block must be padded: it has to be true exactly when a pad is non-zero
             need = dom.decide(BoolOr((BoolC(p0, "!="), BoolC(p1, "!="))), pcs, extra=pre)
@@ -97,9 +105,12 @@ def slice_pad_clause(model, rep, funcs):
                 okf = False if any(v is False for v in verdicts) else (None if any(v is None for v in verdicts) else True)
             rep.ob("A", where, "the out-of-bound flag is true exactly when pad_before or pad_after is non-zero (callers pad only when it is set)" + tag, okf,
                    f"padding needed: {need}, flag: {flag} ({val.items[2]!r})"[:300], node=st, fn=f, clause="1 window", stmt=norm_src(st) + " flag @ " + pcdesc)
-        okb = dom.prove_ge((dom.add(size, dom.neg(b))).poly(), pcs, extra=pre)
-        rep.ob("A", where, "slice.stop <= size" + tag, True if okb else None, "" if okb else f"cannot prove {b!r} <= size", node=st, fn=f,
-               clause="1 window")
+        gb = (dom.add(size, dom.neg(b))).poly()
+        okb = dom.prove_ge(gb, pcs, extra=pre)
+        w = _neg_witness(gb) if not okb else None
+        rep.ob("A", where, "slice.stop <= size" + tag, True if okb else (False if w is not None else None),
+               "" if okb else (f"slice.stop = {b!r} exceeds size for {w}: the block is cut short and never padded" if w is not None else f"cannot prove {b!r} <= size"),
+               node=st, fn=f, clause="1 window")
 
     def on_raise(interp, fn, st, env):
         if fn is not f:
